@@ -66,7 +66,7 @@ CHECKS = {
         engine='sched', category='exploration', design='4/C04',
         technique='controlled thread scheduler (bounded-preemption DFS + random) over real servicer threads; offline check of each observed outcome against all serial orders up to trial-id bijection; free-running stress judged by conservation invariants',
         text=('~1900 (prefix, concurrent set) combos x 2 datastores; per combo every schedule with <=2 (quick) / <=3 (thorough) '
-              'pre-emptions at datastore-call / service-lock granularity (capped) plus random schedules - ~50k schedules per quick run; '
+              'pre-emptions at service-lock / datastore-lock acquisition granularity (capped) plus random schedules; half of the matrix with gRPC-handler error semantics - ~50k schedules per quick run; '
               'deadlock detector, unfinished-operation scan, write monitor, persisted-algorithm-counter check; plus 8-12 free threads x '
               '60-400 ops with unique payload ids checked for lost measurements / metadata / duplicate ids.'),
         note=('Serial outcomes come from the real servicer run sequentially (serialisability only). Interleavings inside one datastore '
